@@ -278,7 +278,9 @@ pub fn run(o: &Opts) -> Report {
         let mut cands: Vec<Vec<u8>> = vec![];
         for (nm, al) in &pvs { for s in std::iter::once(nm).chain(al.iter()) { for v in case_variants(s, &mut rng, 1) { cands.push(v.into_bytes()); } cands.push(s.as_bytes()[..s.len().saturating_sub(1)].to_vec()); let mut x = s.clone().into_bytes(); x.push(b's'); cands.push(x); } }
         cands.push(vec![0xff]); cands.push(b"".to_vec()); cands.push(rng.pick(&names).as_bytes().to_vec());
-        let parser = PossibleValuesParser::new(pvs.iter().map(|(nm, al)| PossibleValue::new(nm.clone()).aliases(al.clone())).collect::<Vec<_>>());
+        // hidden values are hidden from help and error listings only; they stay part of the language
+        let hid: Vec<bool> = pvs.iter().map(|_| rng.chance(1, 3)).collect();
+        let parser = PossibleValuesParser::new(pvs.iter().zip(hid.iter()).map(|((nm, al), h)| PossibleValue::new(nm.clone()).aliases(al.clone()).hide(*h)).collect::<Vec<_>>());
         let pv_tok = pvs.iter().map(|(nm, al)| std::iter::once(nm).chain(al.iter()).map(|s| hex(s.as_bytes())).collect::<Vec<_>>().join(",")).collect::<Vec<_>>().join(" ");
         for c in cands {
             // with ignore_case only ASCII candidates (Unicode folding is unicase's business)
@@ -296,6 +298,7 @@ pub fn run(o: &Opts) -> Report {
             for (c2, d) in fails { rep.oracle_fail(&c2, &req, &d); }
             rep.case(&req, got.starts_with("OK"));
             rep.count(if ic { "possible_ignore_case" } else { "possible_exact" });
+            if hid.iter().any(|h| *h) { rep.count("possible_with_hidden_value"); }
             reqs.push(req); impls.push(got);
         }
     }
